@@ -62,7 +62,7 @@ def _engine_targets(ded, results, tier):
             rec["reason"] = f"engine error {type(e).__name__}: {e}"
             rec["trace"] = traceback.format_exc()[-1500:]
         out.append(rec)
-    opts = {"z3_ms": 30000 if tier == "quick" else 60000, "cvc5_s": 30 if tier == "quick" else 90}
+    opts = {"z3_ms": 30000 if tier == "quick" else 60000, "cvc5_s": 30 if tier == "quick" else 90, "cross": tier != "quick"}
     opts.update(ded.get("opts", {}))
     retry_unknown = ded.get("retry_unknown", True)
     res = discharge([o for _, o in all_obls], opts=opts) if all_obls else []
@@ -78,7 +78,10 @@ def _engine_targets(ded, results, tier):
             r2["ms"] += res[k]["ms"]
             res[k] = r2
     for (rec, o), r in zip(all_obls, res):
+        if r.get("conflict"):
+            rec["conflict"] = rec.get("conflict", []) + [o.name]
         rec["obligations"].append({"name": o.name, "kind": o.kind, "result": r["result"], "backend": r["backend"], "ms": r["ms"],
+                                   "cross": r.get("cross"),
                                    "model": r.get("model") if r["result"] == "sat" else None, "reason": r.get("reason", ""),
                                    "line": o.line})
     # vacuity guard: the entry condition must not be refutable and at least one normal exit must be reachable
@@ -175,6 +178,10 @@ def run_property(pid, prop, tier, seed, known, t0):
     if hasattr(prop, "bounded"):
         bounded = prop.bounded(tier, seed) or []
 
+    conflicts = [n for r in ded_results for n in r.get("conflict", [])]
+    if conflicts:
+        print(f"CHECKER-ERROR property={pid} the two solver back ends disagree (unsat vs sat) on: {conflicts[:5]}")
+        return 3
     violations = []  # dicts: what, obligation|None, input|None, detail
     known_lines = []
     n_obl = n_dis = 0
@@ -289,6 +296,7 @@ def run_property(pid, prop, tier, seed, known, t0):
         "discharged": n_dis,
         "solver_ms_total": solver_ms,
         "backends": backends,
+        "cross_checked_by_other_backend": {k: sum(1 for r in ded_results for o in r["obligations"] if o.get("cross") == k) for k in ("unsat", "unknown", "sat")},
         "checker_cmd": f"./check.py {pid} --tier {tier}",
         "trusted_base": getattr(prop, "TRUSTED", []),
         "evaluations": n_eval,
